@@ -708,6 +708,81 @@ def case_cmpforeign(c, out):
     out.fail("eq-ne-foreign", "%s: %r == %r is %s and != is %s" % (t, a, o, eq, ne), type=t, operand=c["o"])
 
 
+def _mk_addr(A, t, raw):
+  if t == "ip4": return A.IPAddr(raw)
+  if t == "ip6": return A.IPAddr6(raw, raw=True)
+  return A.EthAddr(raw)
+
+
+_ORD = (("<", lambda x, y: x < y), ("<=", lambda x, y: x <= y), (">", lambda x, y: x > y), (">=", lambda x, y: x >= y))
+
+
+def case_cmpcross(c, out):
+  """Two addresses of DIFFERENT classes of this library.  POX lets them be compared (an IPAddr equals the
+  IPv4-mapped IPAddr6); whatever verdicts it gives must be mutually consistent: ==/!= return complementary
+  booleans and are symmetric, equal values hash equally, and the four ordering operators either all decline
+  (TypeError) or all answer, in which case exactly one of <, ==, > holds, <=/>= are their unions and
+  x<y agrees with y>x."""
+  A, U = _mods()
+  tx, ty = c["tx"], c["ty"]
+  x, y = _mk_addr(A, tx, c["x"]), _mk_addr(A, ty, c["y"])
+  pair = tx + "/" + ty
+  out.nontrivial = True
+  res = {}
+  for name, f in (("x==y", lambda: x == y), ("x!=y", lambda: x != y), ("y==x", lambda: y == x), ("y!=x", lambda: y != x)):
+    r, v = _raises(f)
+    if r:
+      out.fail("cross-eq-raises", "%r %s %r raises %s" % (x, name, y, type(v).__name__ if v is not None else "?"), pair=pair)
+      return
+    if not isinstance(v, bool):
+      out.fail("cross-eq-not-bool", "%s on %r, %r returned %r" % (name, x, y, v), pair=pair)
+      return
+    res[name] = v
+  if res["x==y"] == res["x!=y"] or res["y==x"] == res["y!=x"]:
+    out.fail("cross-eq-ne", "%r vs %r: == and != are not complementary: %r" % (x, y, res), pair=pair)
+  if res["x==y"] != res["y==x"]:
+    out.fail("cross-eq-asymmetric", "%r == %r is %s but reversed is %s" % (x, y, res["x==y"], res["y==x"]), pair=pair)
+  eq = res["x==y"]
+  if eq:
+    out.label("cross-equal")
+    if hash(x) != hash(y):
+      out.fail("cross-eq-hash", "%r == %r but their hashes differ" % (x, y), pair=pair)
+    if len({x, y}) != 1:
+      out.fail("cross-eq-set", "%r == %r but a set keeps both" % (x, y), pair=pair)
+  o = {}
+  declined = []
+  for (a, b, tag) in ((x, y, "xy"), (y, x, "yx")):
+    for name, f in _ORD:
+      try:
+        v = f(a, b)
+      except TypeError:
+        declined.append(tag + name)
+        continue
+      except Exception as e:          # noqa: BLE001 - judged: an ordering of two addresses must not crash
+        out.fail("cross-order-raises", "%r %s %r raises %s" % (a, name, b, type(e).__name__), pair=pair)
+        return
+      if not isinstance(v, bool):
+        out.fail("cross-order-not-bool", "%r %s %r returned %r" % (a, name, b, v), pair=pair)
+        return
+      o[tag + name] = v
+  if declined and o:
+    out.fail("cross-order-partial", "%r vs %r: some ordering operators decline (%s) and others answer (%s)"
+             % (x, y, ",".join(declined), ",".join(sorted(o))), pair=pair)
+    return
+  if declined:
+    out.label("cross-order-declined")
+    if eq:
+      out.fail("cross-order-declined-equal", "%r == %r yet they cannot be ordered" % (x, y), pair=pair)
+    return
+  out.label("cross-ordered")
+  if [o["xy<"], eq, o["xy>"]].count(True) != 1:
+    out.fail("cross-trichotomy", "%r vs %r: <,==,> = %s,%s,%s" % (x, y, o["xy<"], eq, o["xy>"]), pair=pair)
+  if o["xy<="] != (o["xy<"] or eq) or o["xy>="] != (o["xy>"] or eq):
+    out.fail("cross-le-ge", "%r vs %r: <=/>= are not the unions of </>/==: %r" % (x, y, o), pair=pair)
+  if o["xy<"] != o["yx>"] or o["xy>"] != o["yx<"] or o["xy<="] != o["yx>="] or o["xy>="] != o["yx<="]:
+    out.fail("cross-reflected", "%r vs %r: x<y and y>x (etc.) disagree: %r" % (x, y, o), pair=pair)
+
+
 def _ref_dpid_str(d, always_long):
   lo, hi = d & 0xffffffffffff, d >> 48
   s = "-".join("%02x" % ((lo >> s) & 255) for s in range(40, -8, -8))
@@ -748,7 +823,7 @@ _CASES = {
   "ip4badmask": case_ip4badmask, "ip4text": case_ip4text,
   "ip6": case_ip6, "ip6text": case_ip6text, "ip6bad": case_ip6bad, "ip6net": case_ip6net,
   "ip6cidr": case_ip6cidr, "ip6badmask": case_ip6badmask,
-  "eth": case_eth, "ethnone": case_ethnone, "ethbad": case_ethbad, "cmp": case_cmp, "cmpforeign": case_cmpforeign,
+  "eth": case_eth, "ethnone": case_ethnone, "ethbad": case_ethbad, "cmp": case_cmp, "cmpforeign": case_cmpforeign, "cmpcross": case_cmpcross,
   "dpid": case_dpid, "dpidbad": case_dpidbad,
 }
 
@@ -978,6 +1053,21 @@ def enum_cmp(tier):
         yield {"k": "cmpforeign", "t": t, "a": a, "o": o}
 
 
+_MAPPED = b"\0" * 10 + b"\xff\xff"
+
+
+def enum_cmpcross(tier):
+  v4 = [n.to_bytes(4, "big") for n in (0, 1, 0x01020304, 0x01020305, 0x7fffffff, 0x80000000, 0xffffffff, 0xe0000001)]
+  v6 = [_MAPPED + r for r in v4] + [b"\0" * 12 + r for r in v4[:4]] + \
+       [n.to_bytes(16, "big") for n in (0, 1, 1 << 127, (1 << 128) - 1, 0x20010db8 << 96 | 0x01020304, 0xffff << 48)]
+  ve = [bytes.fromhex(h) for h in ("000000000000", "000001020304", "010203040000", "ffffffffffff", "0000ffff0102")]
+  fam = {"ip4": v4, "ip6": v6, "eth": ve}
+  for tx, ty in (("ip4", "ip6"), ("ip6", "ip4"), ("ip4", "eth"), ("eth", "ip4"), ("ip6", "eth"), ("eth", "ip6")):
+    for x in fam[tx]:
+      for y in fam[ty]:
+        yield {"k": "cmpcross", "tx": tx, "x": x, "ty": ty, "y": y}
+
+
 def enum_dpid(tier):
   vals = set()
   for sh in range(0, 64):
@@ -993,7 +1083,7 @@ def enum_dpid(tier):
 
 def _all_enum(tier):
   return itertools.chain(enum_ip4(tier), enum_ip4net(tier), enum_ip4text(tier), enum_ip6(tier), enum_ip6bad(tier),
-                         enum_ip6net(tier), enum_eth(tier), enum_cmp(tier), enum_dpid(tier))
+                         enum_ip6net(tier), enum_eth(tier), enum_cmp(tier), enum_cmpcross(tier), enum_dpid(tier))
 
 
 # --------------------------------------------------------------------------- Hypothesis strategies
@@ -1081,7 +1171,22 @@ def _strategy(tier):
     st.one_of(st.tuples(st.just("ip4"), _raw(4)), st.tuples(st.just("ip6"), _raw(16)), st.tuples(st.just("eth"), _raw(6))).flatmap(
         lambda t: st.sampled_from(_FOREIGN).map(lambda o: {"k": "cmpforeign", "t": t[0], "a": t[1], "o": o})),
     st.tuples(_u(64), st.booleans()).map(lambda t: {"k": "dpid", "v": t[0], "long": t[1]}),
+    _s_cmpcross(),
   )
+
+
+def _s_cmpcross():
+  """Pairs of different classes; an IPv6 operand is, half the time, the mapped / compatible image of an IPv4 value
+  near the other operand so that equal and adjacent pairs are common."""
+  def v6_near(r4):
+    return st.one_of(st.just(_MAPPED + r4), st.just(b"\0" * 12 + r4),
+                     st.just(_MAPPED + ((int.from_bytes(r4, "big") + 1) & 0xffffffff).to_bytes(4, "big")),
+                     st.just(_MAPPED + ((int.from_bytes(r4, "big") - 1) & 0xffffffff).to_bytes(4, "big")), _raw(16))
+  p46 = _raw(4).flatmap(lambda r4: v6_near(r4).map(lambda r6: (("ip4", r4), ("ip6", r6))))
+  p4e = st.tuples(st.tuples(st.just("ip4"), _raw(4)), st.tuples(st.just("eth"), _raw(6)))
+  p6e = st.tuples(st.tuples(st.just("ip6"), _raw(16)), st.tuples(st.just("eth"), _raw(6)))
+  return st.tuples(st.one_of(p46, p46, p4e, p6e), st.booleans()).map(
+      lambda t: (lambda a, b: {"k": "cmpcross", "tx": a[0], "x": a[1], "ty": b[0], "y": b[1]})(*(t[0] if t[1] else t[0][::-1])))
 
 
 def case_from_bytes(data):
